@@ -137,7 +137,7 @@ class NCDomain(BaseDomain):
             sqrt=lambda v: P(v).sqrt() if not isinstance(v, Opaque) else v, abs=lambda v: abs(v),
             finfo=lambda t=None: Namespace("finfo", eps=2.220446049250313e-16),
             random=Namespace("np.random", randn=d.rng_randn, seed=lambda *a: None),
-            stack=d.np_stack, inf=float("inf"), isfinite=lambda v: UNKNOWN("isfinite"),
+            stack=d.np_stack, moveaxis=d.np_moveaxis, inf=float("inf"), isfinite=lambda v: UNKNOWN("isfinite"),
             allclose=lambda *a, **k: UNKNOWN("allclose"),
             transpose=d.np_transpose, conjugate=d.np_conj, conj=d.np_conj,
         )
@@ -165,6 +165,12 @@ class NCDomain(BaseDomain):
         if all(isinstance(x, RandPlane) for x in xs) and axis == -1:
             return RandStack(list(xs))
         raise Unsupported("np.stack in the matrix-word domain")
+
+    def np_moveaxis(self, a, src, dst):
+        # one draw of shape (4, n, r) whose leading axis is moved last = four independent Gaussian planes stacked on the last axis
+        if isinstance(a, RandPlane) and len(a.shape) == 3 and a.shape[0] == 4 and src == 0 and dst in (-1, 2):
+            return RandStack([RandPlane((a.tag, i), a.shape[1:]) for i in range(4)])
+        raise Unsupported("np.moveaxis in the matrix-word domain")
 
     def as_quat_array(self, a):
         if isinstance(a, RandStack) and len(a.planes) == 4:
